@@ -1,6 +1,7 @@
 package rules
 
 import (
+	"go/types"
 	"fmt"
 	"go/token"
 	"sort"
@@ -226,12 +227,67 @@ func Valid(w *load.World, c *core.Collector) {
 
 // ------------------------------------------------------------------- TENANT
 
-// concatOperands flattens a string concatenation.
-func concatOperands(v ssa.Value) []ssa.Value {
-	if bo, ok := v.(*ssa.BinOp); ok && bo.Op == token.ADD {
-		return append(concatOperands(bo.X), concatOperands(bo.Y)...)
+// concatOperands flattens a string concatenation, looking through []byte/string
+// conversions and through module helpers that do nothing but build the string
+// from their parameters (a key constructor extracted by a refactoring).
+func concatOperands(v ssa.Value) []ssa.Value { return concatOperandsN(v, 0) }
+
+func concatOperandsN(v ssa.Value, depth int) []ssa.Value {
+	switch x := v.(type) {
+	case *ssa.BinOp:
+		if x.Op == token.ADD {
+			return append(concatOperandsN(x.X, depth), concatOperandsN(x.Y, depth)...)
+		}
+	case *ssa.Convert:
+		if bt, ok := x.X.Type().Underlying().(*types.Basic); ok && bt.Info()&types.IsString != 0 {
+			return concatOperandsN(x.X, depth)
+		}
+		if sl, ok := x.X.Type().Underlying().(*types.Slice); ok {
+			if bt, ok := sl.Elem().Underlying().(*types.Basic); ok && bt.Kind() == types.Byte {
+				return concatOperandsN(x.X, depth)
+			}
+		}
+	case *ssa.Call:
+		g := x.Call.StaticCallee()
+		if g == nil || depth > 2 || !ssax.InModule(g) {
+			break
+		}
+		var ret *ssa.Return
+		nret := 0
+		for _, b := range g.Blocks {
+			if r, ok := b.Instrs[len(b.Instrs)-1].(*ssa.Return); ok && b != g.Recover {
+				ret = r
+				nret++
+			}
+		}
+		if nret != 1 || len(ret.Results) != 1 {
+			break
+		}
+		inner := concatOperandsN(ret.Results[0], depth+1)
+		if len(inner) < 2 {
+			break
+		}
+		var out []ssa.Value
+		for _, o := range inner {
+			if p, ok := o.(*ssa.Parameter); ok {
+				for i, q := range g.Params {
+					if q == p && i < len(x.Call.Args) {
+						out = append(out, concatOperandsN(x.Call.Args[i], depth+1)...)
+					}
+				}
+				continue
+			}
+			out = append(out, o)
+		}
+		return out
 	}
 	return []ssa.Value{v}
+}
+
+// isDelimiter: the operand is the constant key delimiter (directly or through the named constant).
+func isDelimiter(v ssa.Value, delim string) bool {
+	s, ok := ssax.ConstString(v)
+	return ok && s == delim
 }
 
 func Tenant(w *load.World, c *core.Collector) {
@@ -404,9 +460,23 @@ func Tenant(w *load.World, c *core.Collector) {
 					continue
 				}
 				nU++
-				o := ssax.Prov(v)
+				o := provDeep(w, v)
 				key := fmt.Sprintf("user-id:%s@%s", what, load.FnKey(f))
-				if o["call:"+load.Mod+"/httpapi/middleware.GetAppHeaders"] && o["field:UserId"] {
+				fromHeaders, isUser, other := false, false, false
+				for k := range o {
+					switch {
+					case strings.HasSuffix(k, "call:"+load.Mod+"/httpapi/middleware.GetAppHeaders"):
+						fromHeaders = true
+					case strings.HasSuffix(k, "field:UserId"):
+						isUser = true
+					case strings.HasPrefix(k, "param:"), strings.Contains(k, ":param:"), k == "const", strings.HasSuffix(k, ":const"),
+						strings.Contains(k, "call:(*net/http.Request).Context"), strings.Contains(k, "inlined:"), strings.Contains(k, "call:"+load.Mod+"/httpapi/middleware."),
+						strings.Contains(k, "call:context.Context.Value"), strings.Contains(k, "other:*ssa.TypeAssert"), strings.Contains(k, "global:"):
+					case strings.Contains(k, "field:Header"), strings.Contains(k, "call:(net/http.Header)"), strings.Contains(k, "PathValue"), strings.Contains(k, "field:URL"), strings.Contains(k, "FormValue"):
+						other = true
+					}
+				}
+				if fromHeaders && isUser && !other {
 					c.Add("TENANT", key, core.OK, w.At(in), "", props...)
 				} else {
 					c.Add("TENANT", key, core.Violation, w.At(in), fmt.Sprintf("the user id does not come from the authenticated request headers (origins %v)", o.Keys()), props...)
@@ -414,6 +484,102 @@ func Tenant(w *load.World, c *core.Collector) {
 			}
 		}
 	}
+	// composite identifiers: wherever a user id is glued to another value to form a key (bucket key,
+	// cache key, map key, path), a constant separator stands between them; "ab"+"cdef" == "abc"+"def"
+	nCat := 0
+	for _, f := range w.Fns {
+		p := load.PkgPath(f)
+		if p != load.Mod+"/httpapi/v1" && p != load.Mod+"/httpapi/v2" && p != clusterPkg && p != load.Mod+"/httpapi/middleware" {
+			continue
+		}
+		for _, b := range f.Blocks {
+			for _, in := range b.Instrs {
+				bo, ok := in.(*ssa.BinOp)
+				if !ok || bo.Op != token.ADD {
+					continue
+				}
+				if bt, ok := bo.Type().Underlying().(*types.Basic); !ok || bt.Info()&types.IsString == 0 {
+					continue
+				}
+				// only roots of a concatenation
+				root := true
+				for _, r := range *bo.Referrers() {
+					if rb, ok := r.(*ssa.BinOp); ok && rb.Op == token.ADD {
+						root = false
+					}
+				}
+				if !root {
+					continue
+				}
+				// the input of a hash is not a key: routing hashes key+server on purpose
+				hashed := false
+				for _, r := range *bo.Referrers() {
+					var cc *ssa.CallCommon
+					switch x := r.(type) {
+					case *ssa.Call:
+						cc = x.Common()
+					case *ssa.Convert:
+						for _, rr := range *x.Referrers() {
+							if c2, ok := rr.(*ssa.Call); ok {
+								cc = c2.Common()
+							}
+						}
+					}
+					if cc != nil && cc.StaticCallee() != nil {
+						for _, h := range pureHashes {
+							if strings.Contains(cc.StaticCallee().String(), h) {
+								hashed = true
+							}
+						}
+					}
+				}
+				if hashed {
+					continue
+				}
+				ops := concatOperands(bo)
+				isUser := func(v ssa.Value) bool {
+					if _, isC := v.(*ssa.Const); isC {
+						return false
+					}
+					for k := range provDeep(w, v) {
+						if strings.HasSuffix(k, "field:UserId") {
+							return true
+						}
+					}
+					return false
+				}
+				isConst := func(v ssa.Value) bool {
+					s, ok := ssax.ConstString(v)
+					return ok && s != ""
+				}
+				hasUser := false
+				bad := false
+				for i, o := range ops {
+					if !isUser(o) {
+						continue
+					}
+					hasUser = true
+					if i+1 < len(ops) && !isConst(ops[i+1]) {
+						bad = true
+					}
+					if i > 0 && !isConst(ops[i-1]) {
+						bad = true
+					}
+				}
+				if !hasUser {
+					continue
+				}
+				nCat++
+				key := fmt.Sprintf("separator:%s", load.FnKey(f))
+				if bad {
+					c.Add("TENANT", key, core.Violation, w.At(in), "a user id is concatenated with another variable part without a constant separator between them: different (user, name) pairs collide on the same key", props...)
+				} else {
+					c.Add("TENANT", key, core.OK, w.At(in), "", props...)
+				}
+			}
+		}
+	}
+	c.Count("user_id_concatenations", nCat)
 	c.Count("user_id_uses_in_handlers", nU)
 	if nU < 6 {
 		c.Add("TENANT", "anchor:user-id-uses", core.Undecided, "", fmt.Sprintf("found %d user id uses in handlers, expected at least 6", nU), props...)
